@@ -309,12 +309,38 @@ pub fn check_jacobian(run: &mut Run, q: P2, face: u8, class: &str) {
         run.count("stencils.skipped_closer_than_1e-6_to_a_triangle_corner");
         return;
     }
-    let h = (0.01 * corner).clamp(1e-8, 1e-6); // h / corner <= 0.01: the map is conical at the corners, truncation ~ (h / r)^2
+    // distance to the face edge line (the map has a kink there: a stencil must stay on one side of it)
+    let edge_dist = {
+        let g = q[1].atan2(q[0]);
+        let k = (g / 72f64.to_radians()).round();
+        let off = g - k * 72f64.to_radians();
+        ((q[0] * q[0] + q[1] * q[1]).sqrt() * off.cos() - D_EDGE).abs()
+    };
+    if edge_dist < 5e-8 {
+        run.count("stencils.skipped_closer_than_5e-8_to_the_face_edge");
+        return;
+    }
+    // h / corner <= 0.01: the map is conical at the corners, truncation ~ (h / r)^2
+    let h = (0.01 * corner).min(0.25 * edge_dist).clamp(1e-8, 1e-6);
+    if edge_dist < 1e-4 {
+        run.count(if sector(q).1 { "stencils.within_1e-4_beyond_the_face_edge" } else { "stencils.within_1e-4_inside_the_face_edge" });
+    }
     let pts = [[q[0] + h, q[1]], [q[0] - h, q[1]], [q[0], q[1] + h], [q[0], q[1] - h]];
     let s0 = sector(q);
     // all stencil points must lie in the same triangle: same sector, same side of the face edge, and (beyond the edge, where
     // the map degenerates outside the reflected triangle) safely inside that triangle
-    let outside = if s0.1 { margin < 1e-3 || pts.iter().any(|p| tri_margin(*p) < 5e-4) } else { margin <= 0.0 || pts.iter().any(|p| tri_margin(*p) <= 0.0) };
+    // (the barycentric coordinate belonging to the edge itself may be arbitrarily small: the edge is part of the domain)
+    let away_from_ends = |p: P2| -> bool {
+        // beyond the edge the reflected triangle narrows towards its apex: stay 1e-3 (relative) inside its two slanted sides
+        let g = p[1].atan2(p[0]);
+        let k = (g / 72f64.to_radians()).round();
+        let off = g - k * 72f64.to_radians();
+        let r = (p[0] * p[0] + p[1] * p[1]).sqrt();
+        let (xp, yp) = (r * off.cos(), r * off.sin());
+        let ymax = 0.449_027_976_579_585_5 * (2.0 * D_EDGE - xp) / D_EDGE;
+        yp.abs() < ymax * (1.0 - 2e-3) && xp < 2.0 * D_EDGE * (1.0 - 1e-3)
+    };
+    let outside = if s0.1 { margin <= 0.0 || !away_from_ends(q) || pts.iter().any(|p| tri_margin(*p) <= 0.0 || !away_from_ends(*p)) } else { margin <= 0.0 || pts.iter().any(|p| tri_margin(*p) <= 0.0) };
     if pts.iter().any(|p| sector(*p) != s0) || outside {
         run.count("stencils.skipped_straddling_seam_or_edge_or_outside_margin");
         return;
@@ -427,11 +453,11 @@ fn margin_point(rng: &mut Rng) -> (P2, &'static str) {
         }
         3 => {
             let az = amid + rng.range(-0.6, 0.6);
-            (pentagon_point(az, 1.0 - rng.log10(0.5, 5.0)), "jacobian.near_edge_inside")
+            (pentagon_point(az, 1.0 - rng.log10(0.5, 7.2)), "jacobian.near_edge_inside")
         }
         _ => {
-            // beyond the edge: x' in (D_EDGE, 2 D_EDGE), inside the reflected triangle
-            let depth = if rng.chance(0.5) { rng.log10(0.3, 5.0) } else { rng.range(0.0, 1.0) };
+            // beyond the edge: x' in (D_EDGE, 2 D_EDGE), inside the reflected triangle; log-concentrated right behind the edge
+            let depth = if rng.chance(0.6) { rng.log10(0.3, 7.2) } else { rng.range(0.0, 1.0) };
             let xp = D_EDGE * (1.0 + depth.min(0.98));
             let ymax = 0.449_027_976_579_585_5 * (2.0 * D_EDGE - xp) / D_EDGE;
             let yp = rng.range(-1.0, 1.0) * ymax * 0.98;
